@@ -6,6 +6,8 @@ so the generator never guesses a shape.  No ``assume``/``filter`` on validity is
 
 from __future__ import annotations
 
+import json
+
 import numpy as np
 from hypothesis import strategies as st
 
@@ -258,7 +260,8 @@ def geo_atoms(g: G, m):
             out += [("MinCellEdgeLength", None), ("MaxCellEdgeLength", None)]
         if g.tdim == 3 and m in ("ds", "dS"):
             out += [("MinFacetEdgeLength", None), ("MaxFacetEdgeLength", None)]
-    if m in ("ds", "dS") and g.gdim == g.tdim:
+    if m in ("ds", "dS") and g.gdim == g.tdim and g.cell != "prism":
+        # FFCx rejects reference normals on prisms ("Unhandled cell types prism")
         out.append(("n", None))
     if g.gdim == g.tdim + 1 and g.gdim > 1:
         out.append(("CellNormal", None))
@@ -474,6 +477,49 @@ def cell_supports(cell, m):
     return False
 
 
+def gen_metadata(draw, pr, cell, m):
+    """Quadrature metadata FFCx documents/tests as supported for this cell and measure."""
+    md = {}
+    tdim = TDIM[cell]
+    if m == "dP":
+        return md
+    if draw(st.floats(0, 1)) < pr.get("p_degree", 0.7):
+        md["quadrature_degree"] = draw(st.integers(0, pr.get("max_qdeg", 5)))
+    r = draw(st.floats(0, 1))
+    # entity the rule lives on
+    ent_is_point = (m in ("ds", "dS") and tdim == 1) or (m == "dr" and tdim == 2)
+    mixed_facets = cell == "prism" and m in ("ds", "dS")
+    if r < pr.get("p_scheme", 0.1) and not ent_is_point and cell != "prism":
+        ent = cell if m == "dx" else {"triangle": "interval", "quadrilateral": "interval", "tetrahedron": "triangle",
+                                      "hexahedron": "quadrilateral"}.get(cell, "interval")
+        if m == "dr":
+            ent = "interval"
+        rule = draw(st.sampled_from(["GLL", "Gauss-Jacobi", "default"]))
+        if rule == "GLL" and ent not in ("interval", "quadrilateral", "hexahedron"):
+            rule = "Gauss-Jacobi"
+        md["quadrature_rule"] = rule
+        md.setdefault("quadrature_degree", draw(st.integers(1, pr.get("max_qdeg", 5))))
+    elif r < pr.get("p_scheme", 0.1) + pr.get("p_vertex", 0.05) and not ent_is_point and not mixed_facets and m != "dr":
+        md["quadrature_rule"] = "vertex"
+        md["quadrature_degree"] = 1
+    return md
+
+
+def gen_subdomain_id(draw, pr):
+    mode = pr["ids"]
+    if mode == "simple":
+        return draw(st.sampled_from([None, None, 0, 1, 3]))
+    if mode == "rich":
+        r = draw(st.integers(0, 5))
+        if r <= 1:
+            return None
+        if r <= 3:
+            return draw(st.sampled_from([0, 1, 2, 5, 7, 11]))
+        n = draw(st.integers(1, 3))
+        return sorted(set(draw(st.sampled_from([0, 1, 2, 5, 7, 11])) for _ in range(n)))
+    return None
+
+
 @st.composite
 def form_specs(draw, profile=None):
     pr = dict(DEFAULT_PROFILE)
@@ -497,6 +543,11 @@ def form_specs(draw, profile=None):
     if allowed:
         pool = [(t, E) for t, E in pool if t in allowed]
     arity = draw(st.sampled_from(pr["arities"]))
+    nint = draw(st.integers(1, pr["max_integrals"]))
+    int_measures = [draw(st.sampled_from(measures)) for _ in range(nint)]
+    if "dP" in int_measures:
+        # FFCx documents: "Vertex integrals not supported for discontinuous elements"
+        pool = [(t, E) for t, E in pool if '"dc": true' not in json.dumps(E) and t not in ("real",)]
     ncoef = draw(st.integers(*pr.get("ncoef", (0, 3))))
     nconst = draw(st.integers(*pr.get("nconst", (0, 2))))
     elements = []
@@ -534,34 +585,10 @@ def form_specs(draw, profile=None):
         "integrals": [],
     }
     g = G(draw, spec, pr)
-    nint = draw(st.integers(1, pr["max_integrals"]))
     for j in range(nint):
-        m = draw(st.sampled_from(measures))
-        md = {}
-        if m != "dP":
-            if draw(st.floats(0, 1)) < pr.get("p_degree", 0.7):
-                md["quadrature_degree"] = draw(st.integers(0, pr.get("max_qdeg", 5)))
-            if draw(st.floats(0, 1)) < pr.get("p_scheme", 0.1) and cell != "prism":
-                md["quadrature_rule"] = draw(st.sampled_from(["GLL", "Gauss-Jacobi", "default"]))
-                md.setdefault("quadrature_degree", draw(st.integers(1, pr.get("max_qdeg", 5))))
-                if md["quadrature_rule"] == "GLL" and cell not in ("interval", "quadrilateral", "hexahedron"):
-                    md["quadrature_rule"] = "Gauss-Jacobi"
-            elif draw(st.floats(0, 1)) < pr.get("p_vertex", 0.05):
-                md["quadrature_rule"] = "vertex"
-                md["quadrature_degree"] = 1
-        sid = None
-        mode = pr["ids"]
-        if mode == "simple":
-            sid = draw(st.sampled_from([None, None, 0, 1, 3]))
-        elif mode == "rich":
-            r = draw(st.integers(0, 5))
-            if r <= 1:
-                sid = None
-            elif r <= 3:
-                sid = draw(st.sampled_from([0, 1, 2, 5, 7, 11]))
-            else:
-                n = draw(st.integers(1, 3))
-                sid = sorted(set(draw(st.sampled_from([0, 1, 2, 5, 7, 11])) for _ in range(n)))
+        m = int_measures[j]
+        md = gen_metadata(draw, pr, cell, m)
+        sid = gen_subdomain_id(draw, pr)
         e = gen_integrand(g, m, pr["depth"])
         spec["integrals"].append({"m": m, "id": sid, "md": md, "e": e})
     spec["_tags"] = sorted(set(tags))
